@@ -12,6 +12,7 @@ import Comet.Driver.Vec5
 import Comet.Driver.Conc
 import Comet.Driver.Store
 import Comet.Driver.Post
+import Comet.Driver.Codec
 namespace Comet.Driver
 
 def handlers : List Handler := [
@@ -28,7 +29,8 @@ def handlers : List Handler := [
   PostStream.handler,
   DistStream.handler,
   TrainStream.handler,
-  StoreStream.handlerRestart, StoreStream.handlerStore, StoreStream.handlerCrash
+  StoreStream.handlerRestart, StoreStream.handlerStore, StoreStream.handlerCrash,
+  CodecStream.handler, CodecStream.truncHandler
 ]
 
 end Comet.Driver
